@@ -98,7 +98,30 @@ pub fn dhcp_msg_strategy() -> impl Strategy<Value = wire::Msg> {
         proptest::collection::vec(any::<u8>(), 16..=16),
         fixed_field_strategy(64),
         fixed_field_strategy(128),
-        proptest::collection::vec(dhcp_option_strategy(), 0..=10),
+        prop_oneof![
+            8 => proptest::collection::vec(dhcp_option_strategy(), 0..=10),
+            // many options at once (a client that asks for everything, a policy that supplies
+            // it): 25..100 short ones under distinct codes plus one or two values longer than
+            // one instance carries
+            3 => (
+                proptest::collection::vec((any::<u8>(), proptest::collection::vec(any::<u8>(), 0..6)), 25..=100),
+                proptest::collection::vec((1u8..=254, prop_oneof![Just(256usize), Just(300), Just(511), Just(766), Just(1400)], any::<u8>()), 1..=2),
+                any::<u16>(),
+            )
+                .prop_map(|(short, long, at)| {
+                    let mut seen = std::collections::HashSet::new();
+                    let mut v: Vec<(u8, Vec<u8>)> = short.into_iter().map(|(c, val)| (c.clamp(1, 254), val)).filter(|(c, _)| seen.insert(*c)).collect();
+                    for (c, l, fill) in long {
+                        if seen.insert(c) {
+                            // a value whose 255-octet pieces all differ
+                            let val: Vec<u8> = (0..l).map(|i| fill.wrapping_add((i / 255) as u8 * 17).wrapping_add(i as u8)).collect();
+                            let i = pick_idx(at, v.len() + 1);
+                            v.insert(i, (c, val));
+                        }
+                    }
+                    v
+                }),
+        ],
         proptest::collection::vec(any::<u16>(), 0..3),
     )
         .prop_map(|(h, a, chaddr, sname, file, mut options, dups)| {
@@ -997,6 +1020,18 @@ pub fn run_c04_func(ctx: &Ctx) {
         max_records: 40,
         max_raw: 20000,
     };
+    // responses of a little over 16 KiB in which a name is first written at every offset around
+    // 0x4000 and used again: complete under the TCP limit, cut under smaller ones
+    run_list(
+        ctx,
+        &C04Trunc,
+        pointer_limit_sweep().into_iter().flat_map(|msg| {
+            [65535u16, 16500, 16384].into_iter().map(move |abs| TruncCase { msg: msg.clone(), mode: 1, idx: 0, delta: 0, abs })
+        }),
+    );
+    if !ctx.violations.lock().unwrap().is_empty() {
+        return;
+    }
     run_prop(ctx, &C04Trunc, || trunc_strategy(small), ctx.tier.pick(60_000, 1_000_000), workers());
     run_prop(ctx, &C04Trunc, || trunc_strategy(big), ctx.tier.pick(3_000, 60_000), workers());
     run_prop(ctx, &C04Trunc, || trunc_strategy(fat), ctx.tier.pick(6_000, 100_000), workers());
